@@ -661,7 +661,8 @@ def build_groups(rng, tier):
 def build_sequences(rng, tier):
     """process-level sequences; most of them put repeated-argument texts (the D07 area) between the observations"""
     n = 6 if tier == "quick" else 36
-    return [sequence_input(rng, repeats=(k % 6 != 5)) for k in range(n)]
+    # every second one writes all its files (problems, domains, trajectories) to the same path again and again
+    return [dict(sequence_input(rng, repeats=(k % 6 != 5)), same_paths=(k % 2 == 1)) for k in range(n)]
 
 
 class LazyLit:
@@ -725,7 +726,7 @@ def strip(d):
 
 def seq_job(seq):
     return {"op": "c14.sequence", "before": [strip(d) for d in seq["before"]], "noise": seq["noise"],
-            "after": [strip(d) for d in seq["after"]], "ctx": seq.get("ctx")}
+            "after": [strip(d) for d in seq["after"]], "ctx": seq.get("ctx"), "same_paths": bool(seq.get("same_paths"))}
 
 
 def run(args):
